@@ -86,6 +86,7 @@ func (p *poller) addConn(c *Conn) error {
 	} else {
 		p.g.onUDPListen(c)
 	}
+	verifPoint("addConn.afterOnOpen", c)
 	p.g.connsUnix[fd] = c
 	err := p.addRead(fd)
 	if err != nil {
@@ -178,6 +179,7 @@ func (p *poller) acceptorLoop() {
 				_ = conn.Close()
 				continue
 			}
+			verifPoint("acceptor.afterAccept", c)
 			err = p.g.pollers[c.Hash()%len(p.g.pollers)].addConn(c)
 			if err != nil {
 				logging.Error("NBIO[%v][%v_%v] addConn [fd: %v] failed: %v",
